@@ -216,6 +216,7 @@ func (f *FibStrategyHashTable) pruneTables(entry *baseFibStrategyEntry) {
 			} else {
 				// Update with length of next longest real prefix associated
 				// with this virtual prefix
+				virtEntry.md = 0
 				for _, l := range f.virtTableNames[virtNameHash] {
 					virtEntry.md = max(virtEntry.md, l)
 				}
